@@ -519,7 +519,191 @@ inductive CheckOut where
   | checked (ts : Option Time) (deleted : List String)    -- `persistent_ts`, the keys removed from the storage
   | error                                                 -- an exception leaves the method
   deriving Repr
+
+/-- the attributes set by `AddonPersistence.__init__` -/
+structure PersistAttrs where
+  persistent : Bool
+  sync_state : Bool
+  expiration : Option Rat          -- seconds
+  key : String
+  deriving Repr
 '''
+
+
+# --------------------------------------------------------------------------------------------- looptimes (values)
+
+class Clock:
+    """edzed/utils/looptimes.py: arithmetic over readings of two clocks.  A call of `time.time` / of the running
+    loop's `time` (directly or through a local alias) is the NEXT reading of that clock: the readings are
+    parameters of the definition, in call order (`unix1`, `loop1`, `unix2`, …).  A function whose parameter
+    defaults to None and is replaced when None (`if x is None: x = …`) takes an `Option Rat`."""
+
+    CLOCKS = {'time.time': 'unix', 'asyncio.get_running_loop().time': 'loop'}
+
+    def __init__(self, known):
+        self.known = known          # python name -> (lean name, [clock kinds of its readings]) of translated functions
+
+    def function(self, fn, lean_name):
+        self.readings = []          # clock kinds, in call order
+        args = fn.args
+        if args.vararg or args.kwarg or args.kwonlyargs or args.posonlyargs:
+            raise Untranslatable('signature of ' + fn.name)
+        defaults = [None] * (len(args.args) - len(args.defaults)) + list(args.defaults)
+        env, params = {}, []
+        for a, d in zip(args.args, defaults):
+            if d is None:
+                env[a.arg] = 'rat'
+                params.append(f'({a.arg} : Rat)')
+            elif isinstance(d, ast.Constant) and d.value is None:
+                env[a.arg] = 'optrat'
+                params.append(f'({a.arg} : Option Rat)')
+            else:
+                raise Untranslatable('default of ' + a.arg)
+        body = self.block(list(fn.body), env, 1)
+        count = {}
+        names = []
+        for k in self.readings:
+            count[k] = count.get(k, 0) + 1
+            names.append(f'{k}{count[k]}')
+        rd = (' (' + ' '.join(names) + ' : Rat)') if names else ''
+        return f"def {lean_name} {' '.join(params)}{rd} : Rat :=\n{body}", list(self.readings)
+
+    def reading(self, kind):
+        self.readings.append(kind)
+        return f'{kind}{self.readings.count(kind)}'
+
+    def expr(self, node, env):
+        if isinstance(node, ast.BinOp) and isinstance(node.op, (ast.Add, ast.Sub, ast.Mult, ast.Div)):
+            op = {ast.Add: '+', ast.Sub: '-', ast.Mult: '*', ast.Div: '/'}[type(node.op)]
+            return f'({self.expr(node.left, env)} {op} {self.expr(node.right, env)})'
+        if isinstance(node, ast.Constant) and isinstance(node.value, (int, float)) and not isinstance(node.value, bool):
+            from fractions import Fraction
+            q = Fraction(node.value)
+            return f'({q.numerator} : Rat)' if q.denominator == 1 else f'(({q.numerator} : Rat) / {q.denominator})'
+        if isinstance(node, ast.Name):
+            if env.get(node.id) == 'rat':
+                return node.id
+            raise Untranslatable(f'{node.id} is not known to be a number here')
+        if isinstance(node, ast.Call) and not node.args and not node.keywords:
+            f = ast.unparse(node.func)
+            if isinstance(node.func, ast.Name) and isinstance(env.get(f), tuple) and env[f][0] == 'clock':
+                return self.reading(env[f][1])
+            if f in self.CLOCKS:
+                return self.reading(self.CLOCKS[f])
+            if f in self.known:
+                lean, kinds = self.known[f]
+                return '(' + ' '.join([lean] + [self.reading(k) for k in kinds]) + ')'
+        raise Untranslatable('expression ' + ast.unparse(node)[:60])
+
+    def block(self, stmts, env, ind):
+        pad = '  ' * ind
+        if not stmts:
+            raise Untranslatable('the function ends without a return')
+        s, rest = stmts[0], stmts[1:]
+        if isinstance(s, ast.Expr) and isinstance(s.value, ast.Constant) and isinstance(s.value.value, str):
+            return self.block(rest, env, ind)
+        if isinstance(s, ast.Return) and s.value is not None:
+            return pad + self.expr(s.value, env)
+        if isinstance(s, ast.Assign) and len(s.targets) == 1 and isinstance(s.targets[0], ast.Name):
+            name = s.targets[0].id
+            src = ast.unparse(s.value)
+            if src in self.CLOCKS:                      # a local alias of a clock function
+                return self.block(rest, dict(env, **{name: ('clock', self.CLOCKS[src])}), ind)
+            val = self.expr(s.value, env)
+            return f'{pad}let {name} : Rat := {val}\n' + self.block(rest, dict(env, **{name: 'rat'}), ind)
+        if (isinstance(s, ast.If) and not s.orelse and len(s.body) == 1 and isinstance(s.body[0], ast.Assign)
+                and isinstance(s.test, ast.Compare) and len(s.test.ops) == 1 and isinstance(s.test.ops[0], ast.Is)
+                and isinstance(s.test.left, ast.Name) and isinstance(s.test.comparators[0], ast.Constant)
+                and s.test.comparators[0].value is None):
+            name = s.test.left.id
+            a = s.body[0]
+            if env.get(name) == 'optrat' and len(a.targets) == 1 and ast.unparse(a.targets[0]) == name:
+                val = self.expr(a.value, env)
+                return (f'{pad}let {name} : Rat := match {name} with\n{pad}  | some given => given\n'
+                        f'{pad}  | none => {val}\n' + self.block(rest, dict(env, **{name: 'rat'}), ind))
+        raise Untranslatable('statement ' + ast.unparse(s)[:80])
+
+
+def looptimes_defs(py2lean, L):
+    from edzed.utils import looptimes
+    known = {}
+    for pyname, lean in (('_get_timediff', 'getTimediff'), ('loop_to_unixtime', 'loopToUnixtime'),
+                         ('unix_to_looptime', 'unixToLooptime')):
+        def translate(t, pyname=pyname, lean=lean):
+            try:
+                text, kinds = Clock(known).function(fn_node(getattr(looptimes, pyname)), lean)
+            except Untranslatable as err:
+                raise py2lean.Untranslatable(str(err))
+            known[pyname] = (lean, kinds)
+            return text
+        py2lean.emit(L, dict(name=lean, doc=f'utils.looptimes.{pyname}'), translate,
+                     ' (the readings of time.time / of the loop clock are parameters, in call order)')
+
+
+# --------------------------------------------------------------------------------------------- AddonPersistence.__init__
+
+def persist_init_def():
+    """`AddonPersistence.__init__` as a constructor of the attributes it sets, in the Except monad: `bool(x)` is the
+    truthiness of a value, `utils.time_period` and `super().__init__` are primitives that may raise, `str(self)` is a
+    parameter; the defaults of the keyword-only arguments come from the signature"""
+    from edzed import addons
+    fn = fn_node(addons.AddonPersistence.__init__)
+    kwonly = [a.arg for a in fn.args.kwonlyargs]
+    if kwonly != ['persistent', 'sync_state', 'expiration'] or fn.args.args[0].arg != 'self' or len(fn.args.args) != 1:
+        raise Untranslatable('signature of AddonPersistence.__init__: ' + ', '.join(kwonly))
+    dflt = []
+    for d in fn.args.kw_defaults:
+        if isinstance(d, ast.Constant) and isinstance(d.value, bool):
+            dflt.append('Val.bool ' + ('true' if d.value else 'false'))
+        elif isinstance(d, ast.Constant) and d.value is None:
+            dflt.append('Val.none')
+        else:
+            raise Untranslatable('default ' + (ast.unparse(d) if d is not None else '<required>'))
+    lines, fields = [], {}
+    for s in fn.body:
+        if isinstance(s, ast.Expr) and isinstance(s.value, ast.Constant) and isinstance(s.value.value, str):
+            continue
+        if isinstance(s, (ast.AnnAssign, ast.Assign)):
+            tgt = s.target if isinstance(s, ast.AnnAssign) else (s.targets[0] if len(s.targets) == 1 else None)
+            if not (isinstance(tgt, ast.Attribute) and isinstance(tgt.value, ast.Name) and tgt.value.id == 'self'
+                    and tgt.attr in ('persistent', 'sync_state', 'expiration', 'key')) or tgt.attr in fields:
+                raise Untranslatable('assignment ' + ast.unparse(s)[:60])
+            v = s.value
+            if isinstance(v, ast.Call) and len(v.args) == 1 and not v.keywords and isinstance(v.args[0], ast.Name):
+                f, arg = ast.unparse(v.func), v.args[0].id
+                if f == 'bool' and arg in kwonly and tgt.attr in ('persistent', 'sync_state'):
+                    lines.append(f'  let a_{tgt.attr} : Bool := {arg}.truthy')
+                elif f == 'utils.time_period' and arg in kwonly and tgt.attr == 'expiration':
+                    lines.append(f'  let a_{tgt.attr} : Option Rat ← timePeriod {arg}')
+                elif f == 'str' and arg == 'self' and tgt.attr == 'key':
+                    lines.append(f'  let a_{tgt.attr} : String := strSelf')
+                else:
+                    raise Untranslatable('value ' + ast.unparse(v)[:60])
+                fields[tgt.attr] = True
+                continue
+            raise Untranslatable('value ' + ast.unparse(v)[:60])
+        if isinstance(s, ast.Expr) and ast.unparse(s.value) == 'super().__init__(*args, **kwargs)':
+            lines.append('  superInit')
+            continue
+        raise Untranslatable('statement ' + ast.unparse(s)[:60])
+    if set(fields) != {'persistent', 'sync_state', 'expiration', 'key'}:
+        raise Untranslatable('attributes set: ' + ', '.join(sorted(fields)))
+    return (f'def persistInitDefaults : Val × Val × Val := ({dflt[0]}, {dflt[1]}, {dflt[2]})'
+            '      -- persistent, sync_state, expiration: the defaults of the signature\n\n'
+            '/-- translated from `addons.AddonPersistence.__init__`: the attributes it sets, in statement order -/\n'
+            'def persistInit {ε : Type} (timePeriod : Val → Except ε (Option Rat)) (superInit : Except ε Unit) '
+            '(strSelf : String)\n    (persistent sync_state expiration : Val) : Except ε PersistAttrs := do\n'
+            + '\n'.join(lines) + '\n'
+            '  pure { persistent := a_persistent, sync_state := a_sync_state, expiration := a_expiration, key := a_key }')
+
+
+def on_enter_expired_def():
+    from edzed.blocklib import sblocks2
+    fn = fn_node(sblocks2.InputExp.on_enter_expired)
+    body = [s for s in fn.body if not (isinstance(s, ast.Expr) and isinstance(s.value, ast.Constant))]
+    if len(body) == 1 and isinstance(body[0], ast.Expr) and ast.unparse(body[0].value) == "self.sdata.pop('input', None)":
+        return 'def inputExpOnEnterExpired (sdata : Data) : Data := sdata.erase "input"'
+    raise Untranslatable('body of InputExp.on_enter_expired')
 
 
 def main(outfile, py2lean):
@@ -553,5 +737,9 @@ def main(outfile, py2lean):
     py2lean.emit(L, dict(name='checkPersistentData', doc='simulator.Circuit._check_persistent_data'),
                  wrap(translate_check),
                  ' (`stamp`: the read of the entry under \'edzed-stop-time\'; a float is `Entry.ts`)')
+    looptimes_defs(py2lean, L)
+    py2lean.emit(L, dict(name='persistInit', doc='addons.AddonPersistence.__init__'), wrap(lambda t: persist_init_def()), '')
+    py2lean.emit(L, dict(name='inputExpOnEnterExpired', doc='blocklib.sblocks2.InputExp.on_enter_expired'),
+                 wrap(lambda t: on_enter_expired_def()), '')
     L.append('end Edzed.Gen.TrP2')
     py2lean.write_if_changed(outfile, '\n'.join(L) + '\n')
